@@ -332,6 +332,25 @@ fn c17(rng: &mut Rng, thorough: bool, hints: &[Vec<String>], rep: &mut Report) {
             rep.violation("accu", "n-th item = start + n*step mod 2^8; never ends", &format!("Accu::<i8>::new({}, {})", s, st), "arithmetic progression", &format!("{:?}", &got[..got.len().min(8)]));
         }
     }
+    // positional access through the Iterator adaptors must see the same progression (n-th item = start + n*step)
+    for _ in 0..(nacc / 10) {
+        let (s, st) = (rng.i32(), rng.i32());
+        let (a, b, c) = (rng.below(70) as usize, 1 + rng.below(5) as usize, 1 + rng.below(4) as usize);
+        let item = |n: usize| (s as i128 + n as i128 * st as i128) as i32;
+        let got = guard(|| {
+            let mut it = Accu::new(s, st);
+            let x = it.nth(a).unwrap();
+            let y = it.next().unwrap();
+            let sk: Vec<i32> = Accu::new(s, st).skip(a).take(b).collect();
+            let sb: Vec<i32> = Accu::new(s, st).step_by(c).take(b).collect();
+            (x, y, sk, sb)
+        });
+        let want = (item(a), item(a + 1), (0..b).map(|j| item(a + j)).collect::<Vec<_>>(), (0..b).map(|j| item(j * c)).collect::<Vec<_>>());
+        if got.as_ref() != Some(&want) {
+            rep.violation("accu", "n-th item = start + n*step mod 2^32 (through nth / skip / step_by)", &format!("Accu::new({}, {}): nth({}), next, skip({}).take({}), step_by({}).take({})", s, st, a, a, b, c, b), &format!("{:?}", want), &format!("{:?}", got));
+        }
+    }
+    rep.count("accu-positional", nacc / 10);
     rep.count("accu", 2 * nacc);
     rep.distinct += 2 * nacc;
     let _ = guard(|| ());
